@@ -50,6 +50,9 @@ func c10WriterIsolation(r *run, g *rng) {
 		}
 		a := slog.New(fmt.Sprintf("iso-a-%d", round)).SetLevel(slog.InfoLevel)
 		k := 2 + g.intn(2)
+		if round%4 == 3 {
+			k = 1 // a list of exactly one destination is handed over; its owner then removes that destination and adds another
+		}
 		own := map[int]bool{}
 		for i := 0; i < k; i++ {
 			own[i] = true
@@ -82,7 +85,11 @@ func c10WriterIsolation(r *run, g *rng) {
 		var hist []string
 		for step := 0; step < 3; step++ {
 			id := 4 + step*2
-			switch g.intn(3) {
+			choice := g.intn(3)
+			if k == 1 {
+				choice = []int{2, 0, 1}[step]
+			}
+			switch choice {
 			case 0:
 				if errSide {
 					a.AddErrorWriter(w(id))
